@@ -449,7 +449,7 @@ Proof.
         cbn [rbind].
         split; [exact Hraw|]. split; [|cbn; congruence].
         assert (Cl2 : z_clear st2 = z_clear st) by (unfold z_clear; congruence).
-        unfold linv. zc. cbn [st_stack st_old st_codes st_tabs z_in z_buf z_last_bit z_cur_bit z_first z_done z_ics z_cs z_limit z_max z_old z_fc z_head z_tail z_stack z_warn].
+        unfold linv. zc. cbn [st_stack st_old st_codes st_tabs z_in z_buf z_last_bit z_cur_bit z_first z_done z_ics z_cs z_limit z_max z_old z_fc z_head z_tail z_stack z_warn]. zc.
         rewrite Cl2, Fi2, Fi.
         split; [exact IO2|]. split; [lia|].
         split; [destruct ((z_max st + 1 >=? z_limit st) && (z_cs st <? 12)) eqn:Gr; lia|].
@@ -462,9 +462,305 @@ Proof.
         cbn [rbind].
         split; [exact Hraw|]. split; [|cbn; congruence].
         assert (Cl2 : z_clear st2 = z_clear st) by (unfold z_clear; congruence).
-        unfold linv. zc. cbn [st_stack st_old z_in z_buf z_last_bit z_cur_bit z_first z_done z_ics z_cs z_limit z_max z_old z_fc z_head z_tail z_stack z_warn].
+        unfold linv. zc. cbn [st_stack st_old z_in z_buf z_last_bit z_cur_bit z_first z_done z_ics z_cs z_limit z_max z_old z_fc z_head z_tail z_stack z_warn]. zc.
         rewrite Cl2, Fi2, Fi, Fc2, Fc, Fm2, Fm, Fh2, Fh, Ft2, Ft.
         split; [exact IO2|]. split; [lia|]. split; [lia|]. split; [lia|]. split; [exact Tab|].
         split; [right; split; [|exact Hraw]; destruct Hinc as [->|[->|[_ Hx]]]; [exact Hc' | unfold code_ok; lia | lia]|].
         split; [exact Hs'|exact Lstk'].
+Qed.
+
+Lemma read_pixels_spec n : forall st, linv st ->
+  match read_pixels n st with
+  | ROk (l, st') => length l = n /\ Forall (fun b => 0 <= b < z_clear st) l /\ linv st' /\ z_ics st' = z_ics st
+  | RErr e => e = R_EOF
+  end.
+Proof.
+  induction n as [|n IH]; intros st L; cbn [read_pixels].
+  - split; [reflexivity|]. split; [constructor|]. split; [exact L|reflexivity].
+  - unfold rbind. pose proof (lzw_read_byte_spec st L) as S.
+    destruct (lzw_read_byte st) as [[b st1]|e]; [|exact S]. destruct S as (Hb & L1 & I1).
+    specialize (IH st1 L1). destruct (read_pixels n st1) as [[l st2]|e]; [|exact IH].
+    destruct IH as (Ln & F & L2 & I2).
+    assert (E : z_clear st1 = z_clear st) by (unfold z_clear; congruence). rewrite E in F.
+    split; [cbn; lia|]. split; [constructor; auto|]. split; [exact L2|congruence].
+Qed.
+
+Lemma lzw_init_linv ics warn s : bytes s -> 2 <= ics <= 8 -> linv (lzw_init ics warn s).
+Proof.
+  intros B H. pose proof (pow2_ics _ H) as P. unfold linv, lzw_init, io_ok, z_clear.
+  cbn [z_in z_buf z_last_bit z_cur_bit z_first z_done z_ics z_cs z_limit z_max z_old z_fc z_head z_tail z_stack z_warn length].
+  split; [split; [exact B|]; split; [lia|]; split; [lia|]; split; [lia|]; auto|]. split; [lia|]. split; [lia|]. split; [lia|].
+  split; [|split; [left; reflexivity|split; [constructor|cbn; lia]]].
+  unfold tab_ok. rewrite !repeat_length, g_tsize. split; [reflexivity|]. split; [reflexivity|]. intros K HK. lia.
+Qed.
+
+(* ---------------------------------------------------------------- colormap *)
+Definition byte (x : Z) : Prop := 0 <= x <= 255.
+
+Definition cm_ok (c : cmap) (lim : Z) : Prop :=
+  length c = 256%nat /\
+  forall i, 0 <= i < lim -> exists r g b, nth_error c (Z.to_nat i) = Some (r, g, b) /\ byte r /\ byte g /\ byte b.
+
+Lemma cmap_set_length c n v : length (cmap_set c n v) = length c.
+Proof. revert n. induction c as [|x c IH]; intros [|n]; cbn [cmap_set length]; auto. Qed.
+
+Lemma cmap_set_same c n v : (n < length c)%nat -> nth_error (cmap_set c n v) n = Some v.
+Proof. revert n. induction c as [|x c IH]; intros [|n] H; cbn [cmap_set nth_error length] in *; try lia; auto. apply IH. lia. Qed.
+
+Lemma cmap_set_other c n m v : n <> m -> nth_error (cmap_set c n v) m = nth_error c m.
+Proof. revert n m. induction c as [|x c IH]; intros [|n] [|m] H; cbn [cmap_set nth_error]; auto; congruence. Qed.
+
+Lemma cm_ok_set c i r g b : cm_ok c (Z.of_nat i) -> (i < 256)%nat -> byte r -> byte g -> byte b ->
+  cm_ok (cmap_set c i (r, g, b)) (Z.of_nat (S i)).
+Proof.
+  intros (L & H) Hi Hr Hg Hb. split; [rewrite cmap_set_length; exact L|].
+  intros j Hj. destruct (Nat.eq_dec (Z.to_nat j) i) as [E|E].
+  - rewrite E, cmap_set_same by lia. eauto 7.
+  - rewrite cmap_set_other by auto. apply H. lia.
+Qed.
+
+Lemma cm_ok_weaken c a b : cm_ok c a -> b <= a -> cm_ok c b.
+Proof. intros (L & H) Hab. split; [exact L|]. intros i Hi. apply H. lia. Qed.
+
+Lemma read_colormap_spec n : forall i c gray s, bytes s -> cm_ok c (Z.of_nat i) -> (i + n <= 256)%nat ->
+  match read_colormap n i c gray s with
+  | ROk (c', _, s') => cm_ok c' (Z.of_nat (i + n)) /\ bytes s' /\ (length s' <= length s)%nat
+  | RErr e => e = R_EOF
+  end.
+Proof.
+  induction n as [|n IH]; intros i c gray s B C Hn; cbn [read_colormap].
+  - rewrite Nat.add_0_r. auto.
+  - destruct s as [|r [|g [|b rest]]]; try reflexivity.
+    apply bytes_cons in B. destruct B as [Br B]. apply bytes_cons in B. destruct B as [Bg B].
+    apply bytes_cons in B. destruct B as [Bb B].
+    rewrite g_cmapsz. replace (Z.of_nat i >=? 256) with false by lia.
+    specialize (IH (S i) (cmap_set c i (r, g, b)) (gray && (r =? g) && (g =? b)) rest B).
+    specialize (IH ltac:(apply cm_ok_set; auto; unfold byte; lia) ltac:(lia)).
+    destruct (read_colormap n (S i) _ _ rest) as [[[c' g'] s']|e]; [|exact IH].
+    destruct IH as (C' & B' & L'). replace (i + S n)%nat with (S i + n)%nat by lia.
+    split; [exact C'|]. split; [exact B'|]. cbn [length]. lia.
+Qed.
+
+Lemma cmap_pad_spec n : forall i c, cm_ok c (Z.of_nat i) -> (i + n <= 256)%nat -> cm_ok (cmap_pad n i c) (Z.of_nat (i + n)).
+Proof.
+  induction n as [|n IH]; intros i c C Hn; cbn [cmap_pad].
+  - rewrite Nat.add_0_r. exact C.
+  - replace (i + S n)%nat with (S i + n)%nat by lia. apply IH; [|lia].
+    pose proof g_pad. apply cm_ok_set; auto; unfold byte; lia.
+Qed.
+
+Lemma cmap_get_ok c lim i : cm_ok c lim -> 0 <= i < lim -> lim <= 256 ->
+  exists r g b, cmap_get c i = ROk (r, g, b) /\ byte r /\ byte g /\ byte b.
+Proof.
+  intros (L & H) Hi Hl. destruct (H i Hi) as (r & g & b & E & Hr & Hg & Hb).
+  exists r, g, b. unfold cmap_get. rewrite g_cmapsz. replace ((i <? 0) || (i >=? 256)) with false by lia.
+  rewrite E. unfold byte in Hr. replace (r <? 0) with false by lia. auto.
+Qed.
+
+Lemma map_pixels_spec gray c lim px : cm_ok c lim -> lim <= 256 -> Forall (fun b => 0 <= b < lim) px ->
+  exists row, map_pixels gray c px = ROk row /\ Forall byte row /\
+              length row = ((if gray then 1 else 3) * length px)%nat.
+Proof.
+  intros C Hl. induction px as [|p t IH]; intro F; cbn [map_pixels].
+  - exists []. split; [reflexivity|]. split; [constructor|]. destruct gray; reflexivity.
+  - inversion F; subst. destruct (cmap_get_ok c lim p C H1 Hl) as (r & g & b & -> & Hr & Hg & Hb).
+    destruct (IH H2) as (row & -> & Fr & Lr). cbn [rbind].
+    destruct gray; eexists; (split; [reflexivity|]);
+      (split; [repeat (constructor; [assumption|]); exact Fr | simpl in Lr |- *; lia]).
+Qed.
+
+(* get_interlaced_row: the stored row fetched for output row r exists *)
+Lemma irow_range h r : 0 <= r < h -> 0 <= irow h r < h.
+Proof.
+  intro H. unfold irow.
+  destruct (r mod 8 =? 0) eqn:E0; [lia|].
+  destruct (r mod 8 =? 4) eqn:E4; [lia|].
+  destruct ((r mod 8 =? 2) || (r mod 8 =? 6)) eqn:E2; lia.
+Qed.
+
+(* ---------------------------------------------------------------- start_input_gif *)
+Lemma znth_byte l i : bytes l -> 0 <= znth l i 0 <= 255.
+Proof.
+  intro B. unfold znth. destruct (nth_in_or_default (Z.to_nat i) l 0) as [I| ->]; [|lia].
+  unfold bytes in B. rewrite Forall_forall in B. specialize (B _ I). lia.
+Qed.
+
+Lemma le16_range l o : bytes l -> 0 <= le16 l o <= 65535.
+Proof. intro B. unfold le16. pose proof (znth_byte l o B). pose proof (znth_byte l (o + 1) B). lia. Qed.
+
+Fixpoint land7_table (n : nat) : bool :=
+  match n with O => true | S m => (0 <=? Z.land (Z.of_nat m) 7) && (Z.land (Z.of_nat m) 7 <=? 7) && land7_table m end.
+Lemma land7_all : land7_table 256 = true. Proof. vm_compute. reflexivity. Qed.
+Lemma land7_sound n : land7_table n = true -> forall m, (m < n)%nat -> 0 <= Z.land (Z.of_nat m) 7 <= 7.
+Proof.
+  induction n as [|n IH]; intros H m Hm; [lia|]. cbn [land7_table] in H.
+  apply andb_true_iff in H. destruct H as [H1 H2]. destruct (Nat.eq_dec m n) as [->|]; [lia|apply IH; auto; lia].
+Qed.
+Lemma land7 x : 0 <= x <= 255 -> 0 <= Z.land x 7 <= 7.
+Proof. intro H. replace x with (Z.of_nat (Z.to_nat x)) by lia. apply (land7_sound 256 land7_all). lia. Qed.
+
+Lemma cmap_len_range x : 0 <= x <= 255 -> 2 <= 2 * 2 ^ Z.land x 7 <= 256.
+Proof.
+  intro H. pose proof (land7 x H) as L.
+  assert (Z.land x 7 = 0 \/ Z.land x 7 = 1 \/ Z.land x 7 = 2 \/ Z.land x 7 = 3 \/ Z.land x 7 = 4 \/ Z.land x 7 = 5 \/
+          Z.land x 7 = 6 \/ Z.land x 7 = 7) as C by lia.
+  repeat (destruct C as [-> | C]); try rewrite C; cbn; lia.
+Qed.
+
+Lemma cm_ok_empty : cm_ok cmap_empty 0.
+Proof. split; [unfold cmap_empty; rewrite repeat_length, g_cmapsz; reflexivity|]. intros i Hi. lia. Qed.
+
+Definition ghdr_ok (hd : gif_hdr) : Prop :=
+  1 <= g_w hd <= 65535 /\ 1 <= g_h hd <= 65535 /\ 2 <= g_ics hd <= 8 /\
+  0 <= g_cmaplen hd <= 256 /\ cm_ok (g_cmap hd) (g_cmaplen hd) /\ 0 <= g_warn hd.
+
+Lemma gif_scan_spec fuel : forall maxpixels c cmaplen gray warn s,
+  bytes s -> (length s < fuel)%nat -> 0 <= cmaplen <= 256 -> cm_ok c cmaplen -> 0 <= warn ->
+  match gif_scan fuel maxpixels c cmaplen gray warn s with
+  | ROk (hd, s') => ghdr_ok hd /\ bytes s' /\ (maxpixels = 0 \/ g_w hd * g_h hd <= maxpixels)
+  | RErr e => rsafe e
+  end.
+Proof.
+  induction fuel as [|f IH]; intros maxpixels c cmaplen gray warn s B Hf Hcl C Hw; [lia|].
+  cbn [gif_scan]. destruct s as [|ch s1]; [repeat split; discriminate|].
+  apply bytes_cons in B. destruct B as [Bch B1]. cbn [length] in Hf.
+  destruct (ch =? 59); [repeat split; discriminate|].
+  destruct (ch =? 33).
+  - destruct s1 as [|lab s2]; [repeat split; discriminate|].
+    apply bytes_cons in B1. destruct B1 as [_ B2]. unfold rbind.
+    pose proof (skip_data_blocks_spec (S (length s2)) s2 B2 ltac:(lia)) as K.
+    destruct (skip_data_blocks _ s2) as [s3|e]; [|subst; repeat split; discriminate].
+    destruct K as [B3 L3]. apply IH; auto. cbn [length] in Hf. lia.
+  - destruct (negb (ch =? 44)); [apply IH; auto; lia|].
+    destruct (take_n 9 s1) as [[d s2]|] eqn:T; [|repeat split; discriminate].
+    apply take_n_spec in T. destruct T as [-> Ld]. apply bytes_app' in B1. destruct B1 as [Bd B2].
+    pose proof (le16_range d 4 Bd) as W. pose proof (le16_range d 6 Bd) as H.
+    destruct ((le16 d 4 =? 0) || (le16 d 6 =? 0)) eqn:E0; [repeat split; discriminate|].
+    destruct (negb (maxpixels =? 0) && (le16 d 4 * le16 d 6 >? maxpixels)) eqn:EM; [repeat split; discriminate|].
+    pose proof (znth_byte d 8 Bd) as Hfl.
+    assert (LC : match (if negb (Z.land (znth d 8 0) 128 =? 0)
+                        then let len := 2 * 2 ^ Z.land (znth d 8 0) 7 in
+                             let^ (c2, g2, s3) := read_colormap (Z.to_nat len) 0 c true s2 in ROk (c2, len, gray || g2, s3)
+                        else ROk (c, cmaplen, gray, s2))
+                 with ROk (c2, cmaplen2, _, s3) => cm_ok c2 cmaplen2 /\ 0 <= cmaplen2 <= 256 /\ bytes s3
+                 | RErr e => e = R_EOF end).
+    { destruct (negb (Z.land (znth d 8 0) 128 =? 0)); [|auto].
+      pose proof (cmap_len_range _ Hfl) as HL. cbv zeta. unfold rbind.
+      assert (C0 : cm_ok c (Z.of_nat 0)) by (apply (cm_ok_weaken c cmaplen); [exact C|cbn; lia]).
+      pose proof (read_colormap_spec (Z.to_nat (2 * 2 ^ Z.land (znth d 8 0) 7)) 0 c true s2 B2 C0 ltac:(lia)) as R.
+      destruct (read_colormap _ 0 c true s2) as [[[c2 g2] s3]|e]; [|exact R].
+      destruct R as (C2 & B3 & _). split; [|split; [lia|exact B3]].
+      replace (Z.of_nat (0 + Z.to_nat (2 * 2 ^ Z.land (znth d 8 0) 7))) with (2 * 2 ^ Z.land (znth d 8 0) 7) in C2 by lia. exact C2. }
+    unfold rbind at 1.
+    match goal with |- match (match ?X with _ => _ end) with _ => _ end => destruct X as [[[[c2 cmaplen2] gray2] s3]|e];
+      [|subst; repeat split; discriminate] end.
+    destruct LC as (C2 & Hcl2 & B3).
+    destruct s3 as [|ics s4]; [repeat split; discriminate|].
+    apply bytes_cons in B3. destruct B3 as [_ B4].
+    rewrite g_cmin, g_cmax. destruct ((ics <? 2) || (ics >? 8)) eqn:EI; [repeat split; discriminate|].
+    unfold ghdr_ok. cbn [g_w g_h g_ics g_cmaplen g_cmap g_warn].
+    split; [|split; [exact B4|lia]]. repeat split; try lia; try apply C2.
+Qed.
+
+Lemma gif_header_spec maxpixels s : bytes s ->
+  match gif_header maxpixels s with
+  | ROk (hd, s') => ghdr_ok hd /\ bytes s' /\ (maxpixels = 0 \/ g_w hd * g_h hd <= maxpixels)
+  | RErr e => rsafe e
+  end.
+Proof.
+  intro B. unfold gif_header.
+  destruct (take_n 6 s) as [[sig s1]|] eqn:T1; [|repeat split; discriminate].
+  apply take_n_spec in T1. destruct T1 as [-> _]. apply bytes_app' in B. destruct B as [_ B1].
+  match goal with |- context [if negb ?c then RErr R_GIF_NOT else _] => destruct (negb c) end; [repeat split; discriminate|].
+  destruct (take_n 7 s1) as [[lsd s2]|] eqn:T2; [|repeat split; discriminate].
+  apply take_n_spec in T2. destruct T2 as [-> _]. apply bytes_app' in B1. destruct B1 as [Bl B2].
+  destruct ((le16 lsd 0 =? 0) || (le16 lsd 2 =? 0)); [repeat split; discriminate|].
+  match goal with |- context [if negb (maxpixels =? 0) && ?c then RErr R_TOOBIG else _] =>
+    destruct (negb (maxpixels =? 0) && c) eqn:EM end; [repeat split; discriminate|].
+  pose proof (znth_byte lsd 4 Bl) as Hfl.
+  assert (GC : match (if negb (Z.land (znth lsd 4 0) 128 =? 0)
+                      then let len := 2 * 2 ^ Z.land (znth lsd 4 0) 7 in
+                           let^ (c, g, s3) := read_colormap (Z.to_nat len) 0 cmap_empty true s2 in ROk (c, len, g, s3)
+                      else ROk (cmap_empty, 0, false, s2))
+               with ROk (c, cmaplen, _, s3) => cm_ok c cmaplen /\ 0 <= cmaplen <= 256 /\ bytes s3
+               | RErr e => e = R_EOF end).
+  { destruct (negb (Z.land (znth lsd 4 0) 128 =? 0)); [|split; [exact cm_ok_empty|split; [lia|exact B2]]].
+    pose proof (cmap_len_range _ Hfl) as HL. cbv zeta. unfold rbind.
+    pose proof (read_colormap_spec (Z.to_nat (2 * 2 ^ Z.land (znth lsd 4 0) 7)) 0 cmap_empty true s2 B2 cm_ok_empty ltac:(lia)) as R.
+    destruct (read_colormap _ 0 cmap_empty true s2) as [[[c g] s3]|e]; [|exact R].
+    destruct R as (C2 & B3 & _). split; [|split; [lia|exact B3]].
+    replace (Z.of_nat (0 + Z.to_nat (2 * 2 ^ Z.land (znth lsd 4 0) 7))) with (2 * 2 ^ Z.land (znth lsd 4 0) 7) in C2 by lia. exact C2. }
+  unfold rbind in GC |- *.
+  match goal with |- match (match ?X with _ => _ end) with _ => _ end => destruct X as [[[[c cmaplen] gray] s3]|e];
+    [|subst; repeat split; discriminate] end.
+  destruct GC as (C & Hcl & B3).
+  apply gif_scan_spec; auto; lia.
+Qed.
+
+(* ---------------------------------------------------------------- rows *)
+Lemma Forall_firstn_g {A} (P : A -> Prop) n l : Forall P l -> Forall P (firstn n l).
+Proof. revert l. induction n; intros [|a l] H; cbn [firstn]; auto. inversion H; subst. constructor; auto. Qed.
+Lemma Forall_skipn_g {A} (P : A -> Prop) n l : Forall P l -> Forall P (skipn n l).
+Proof. revert l. induction n; intros [|a l] H; cbn [skipn]; auto. inversion H; subst. auto. Qed.
+
+Lemma out_rows_spec hd c lim px : cm_ok c lim -> lim <= 256 -> Forall (fun b => 0 <= b < lim) px ->
+  1 <= g_w hd -> 1 <= g_h hd -> length px = Z.to_nat (g_w hd * g_h hd) ->
+  forall n r, 0 <= r -> r + Z.of_nat n <= g_h hd ->
+  exists rows, out_rows n r hd c px = ROk rows /\ length rows = n /\
+    Forall (fun row => Forall byte row /\
+                       length row = ((if g_gray hd then 1 else 3) * Z.to_nat (g_w hd))%nat) rows.
+Proof.
+  intros C Hl F Hw Hh Lpx. induction n as [|n IH]; intros r Hr Hn; cbn [out_rows].
+  - exists []. split; [reflexivity|]. split; [reflexivity|constructor].
+  - set (src := if g_interlaced hd then irow (g_h hd) r else r).
+    assert (Hsrc : 0 <= src < g_h hd).
+    { unfold src. destruct (g_interlaced hd); [apply irow_range; lia|lia]. }
+    replace ((src <? 0) || (src >=? g_h hd)) with false by lia.
+    set (seg := firstn (Z.to_nat (g_w hd)) (skipn (Z.to_nat (src * g_w hd)) px)).
+    assert (Fseg : Forall (fun b => 0 <= b < lim) seg) by (unfold seg; apply Forall_firstn_g, Forall_skipn_g; exact F).
+    assert (Lseg : length seg = Z.to_nat (g_w hd)).
+    { unfold seg. rewrite firstn_length, skipn_length, Lpx. nia. }
+    destruct (map_pixels_spec (g_gray hd) c lim seg C Hl Fseg) as (row & -> & Frow & Lrow). cbn [rbind].
+    destruct (IH (r + 1) ltac:(lia) ltac:(lia)) as (rows & -> & Lrows & Frows). cbn [rbind].
+    exists (row :: rows). split; [reflexivity|]. split; [cbn; lia|]. constructor; [|exact Frows].
+    split; [exact Frow|]. rewrite Lrow, Lseg. reflexivity.
+Qed.
+
+(* the whole GIF reader, every byte string *)
+Theorem load_gif_spec maxpixels s : bytes s ->
+  match load_gif maxpixels s with
+  | ROk (w, h, comps, warn, rows) =>
+    1 <= w <= 65535 /\ 1 <= h <= 65535 /\ (comps = 1 \/ comps = 3) /\ (maxpixels = 0 \/ w * h <= maxpixels) /\
+    length rows = Z.to_nat h /\
+    Forall (fun row => Forall byte row /\ length row = (Z.to_nat comps * Z.to_nat w)%nat) rows
+  | RErr e => rsafe e
+  end.
+Proof.
+  intro B. unfold load_gif. unfold rbind at 1.
+  pose proof (gif_header_spec maxpixels s B) as H.
+  destruct (gif_header maxpixels s) as [[hd s1]|e]; [|exact H].
+  destruct H as ((Hw & Hh & Hics & Hcl & Cm & Hwarn) & B1 & Lim).
+  pose proof (lzw_init_linv (g_ics hd) (g_warn hd) s1 B1 Hics) as L0.
+  set (st0 := lzw_init (g_ics hd) (g_warn hd) s1) in *.
+  assert (Ecl : z_clear st0 = 2 ^ g_ics hd) by reflexivity.
+  pose proof (pow2_ics _ Hics) as Pc.
+  pose proof (read_pixels_spec (Z.to_nat (g_w hd * g_h hd)) st0 L0) as R.
+  unfold rbind at 1.
+  destruct (read_pixels (Z.to_nat (g_w hd * g_h hd)) st0) as [[px st1]|e]; [|subst; repeat split; discriminate].
+  destruct R as (Lpx & Fpx & _ & _).
+  set (c := cmap_pad (Z.to_nat (z_clear st0 - g_cmaplen hd)) (Z.to_nat (g_cmaplen hd)) (g_cmap hd)).
+  (* the padded colormap covers every index below max(cmaplen, clear_code) *)
+  assert (Cc : cm_ok c (Z.max (g_cmaplen hd) (z_clear st0))).
+  { unfold c. rewrite Ecl.
+    assert (C0 : cm_ok (g_cmap hd) (Z.of_nat (Z.to_nat (g_cmaplen hd)))) by (replace (Z.of_nat (Z.to_nat (g_cmaplen hd))) with (g_cmaplen hd) by lia; exact Cm).
+    pose proof (cmap_pad_spec (Z.to_nat (2 ^ g_ics hd - g_cmaplen hd)) (Z.to_nat (g_cmaplen hd)) (g_cmap hd) C0 ltac:(lia)) as P.
+    eapply cm_ok_weaken; [exact P|]. lia. }
+  assert (Fpx' : Forall (fun b => 0 <= b < Z.max (g_cmaplen hd) (z_clear st0)) px).
+  { eapply Forall_impl; [|exact Fpx]. cbv beta. intros a Ha. lia. }
+  destruct (out_rows_spec hd c _ px Cc ltac:(lia) Fpx' ltac:(lia) ltac:(lia) Lpx (Z.to_nat (g_h hd)) 0 ltac:(lia) ltac:(lia))
+    as (rows & -> & Lrows & Frows).
+  cbn [rbind].
+  split; [lia|]. split; [lia|]. split; [destruct (g_gray hd); auto|]. split; [exact Lim|]. split; [exact Lrows|].
+  eapply Forall_impl; [|exact Frows]. cbv beta. intros row [Fr Lr]. split; [exact Fr|].
+  rewrite Lr. destruct (g_gray hd); reflexivity.
 Qed.
